@@ -156,6 +156,9 @@ AllowedTarget(cfg, s, e, pth) ==
     \/ IsKismetTemp(cfg, DirOf(pth))
     \/ IsWCacheDir(cfg, DirOf(pth)) /\ pth.n = CurKey(s, e.p) /\ IsKeyName(pth.n)
     \/ e.call = "mkdir" /\ IsStructuralDir(cfg, DirId(pth))
+    \* an O_TMPFILE open creates an anonymous file INSIDE the directory it names
+    \/ e.call = "open" /\ Has(e, "flags") /\ (\E i \in 1..Len(e.flags) : e.flags[i] = "TMPFILE")
+            /\ (IsKismetTemp(cfg, DirId(pth)) \/ IsPrivDir(DirId(pth)))
     \* maintenance (C07/C17 judge which files): eviction and reprieve of entries of a cache directory
     \/ IsWCacheDir(cfg, DirOf(pth)) /\ e.call \in {"unlink", "utimens", "open"} /\ Lookup(s.fs, pth) # "DIR"
 Confined(cfg, s, e) ==
